@@ -276,14 +276,54 @@ def pred_direction(v, g):
     return None
 
 
+def pred_direction_walk(points, vs):
+    """one search object and one position array that is updated in place along a walk (surface x.x/2, whose
+    gradient at x is x): at every point the direction handed on is +-v with non-negative overlap with the
+    gradient AT THAT POINT"""
+    _, HEF, Potential = imports()
+
+    class Bowl(Potential):
+        def __init__(self):
+            self.atomistic = False
+
+        def function(self, x):
+            return 0.5 * float(np.dot(x, x))
+
+        def gradient(self, x):
+            return np.array(x, dtype=float).copy()
+    h = HEF(Bowl(), H.TOL, 10, 1.0)
+    buf = np.zeros(len(points[0]))
+    for step, (x, v) in enumerate(zip(points, vs)):
+        buf[:] = np.array(x, dtype=float)
+        r, err = call(h.check_eigenvector_direction, np.array(v, dtype=float), buf)
+        if err:
+            return ("check_eigenvector_direction:raises", f"raised {err} at step {step} of a walk")
+        r = np.array(r)
+        v0, g0 = np.array(v, dtype=float), np.array(x, dtype=float)
+        if not (np.array_equal(r, v0) or np.array_equal(r, -v0)):
+            return ("check_eigenvector_direction:not-plus-minus-v", f"step {step} of a walk: v={v}: returned {r.tolist()}")
+        ov = float(np.dot(r, g0))
+        if ov < -1e-12 * max(1.0, float(np.linalg.norm(v0) * np.linalg.norm(g0))):
+            return ("check_eigenvector_direction:downhill:position-updated-in-place",
+                    f"step {step} of a walk whose position array is updated in place: at x={list(x)} (gradient {list(x)}) "
+                    f"the direction handed on {r.tolist()} has overlap {ov} with the gradient")
+    return None
+
+
 def pred_eigen(spec: dict, x, np_seed: int, chain: dict | None = None):
     """get_smallest_eigenvector against dense eigh of the known Hessian (interior point), or unit
     norm / no outward component (boundary point)"""
     StandardCoordinates, HEF, _ = imports()
     pot, bounds = H.make_surface(spec)
     d = len(bounds)
-    c = StandardCoordinates(ndim=d, bounds=bounds)
-    c.position = np.array(x, dtype=float)
+    if chain is not None and chain.get("inplace") and chain.get("c") is not None:
+        c = chain["c"]
+        c.position[:] = np.array(x, dtype=float)        # the walker's array is updated in place, not replaced
+    else:
+        c = StandardCoordinates(ndim=d, bounds=bounds)
+        c.position = np.array(x, dtype=float)
+    if chain is not None:
+        chain["c"] = c
     np.random.seed(np_seed)
     if chain is not None and chain.get("h") is not None:
         # the SAME search object as for the previous point of this surface, driven as `run` drives it:
@@ -356,6 +396,15 @@ def predicates(ctx: Ctx) -> None:
             ctx.stats.case({"stream": "predicate-direction", "d": d, "lead0": v[0] == 0.0}, True)
             if r:
                 ctx.fail(r[0], r[1], {"kind": "direction", "v": v, "g": g})
+    for _ in range(ctx.scale(10, 60) * deep):
+        d = rng.randrange(1, 6)
+        pts = [[rng.choice(VALS) if rng.random() < 0.6 else rng.uniform(-1, 1) for _ in range(d)] for _ in range(rng.randrange(2, 7))]
+        vs = [[rng.choice(VALS) for _ in range(d)] for _ in pts]
+        r = pred_direction_walk(pts, vs)
+        ctx.stats.case({"stream": "predicate-direction-walk", "d": d, "len": len(pts)}, True)
+        if r:
+            ctx.fail(r[0], r[1], {"kind": "walk", "points": pts, "vs": vs})
+            break
     # eigen-solver against dense eigh
     kinds: dict = {}
     specs = [{"kind": "camel"}] + [{"kind": "cos", "d": d, "seed": rng.randrange(10 ** 6)}
@@ -365,7 +414,7 @@ def predicates(ctx: Ctx) -> None:
         _, bounds = H.make_surface(spec)
         # every other surface: one search object for the whole sequence of points (boundary and interior
         # points alternate), with or without warm start from the previous direction
-        chain = {"h": None, "v": None, "warm": si % 4 == 1} if si % 2 == 1 else None
+        chain = {"h": None, "v": None, "warm": si % 4 == 1, "inplace": si % 8 in (1, 3)} if si % 2 == 1 else None
         for k in range(ctx.scale(4, 10)):
             x = H.start_point(rng, bounds, on_bound_prob=(0.0 if k % 2 == 0 else 0.5) if chain is None
                               else (0.9 if k % 2 == 0 else 0.0))
@@ -383,7 +432,7 @@ def predicates(ctx: Ctx) -> None:
     # L-BFGS iterations) although the gradient there is reversed — it must still be re-oriented uphill
     for spec in ({"kind": "sep", "c": [0.5]}, {"kind": "sep", "c": [0.5, -0.25]}, {"kind": "sep", "c": [1.0, 1.0, -1.0]}):
         _, bounds = H.make_surface(spec)
-        chain = {"h": None, "v": None, "warm": True}
+        chain = {"h": None, "v": None, "warm": True, "inplace": True}
         for k in range(ctx.scale(6, 16)):
             if k % 2 == 0:
                 x = [rng.uniform(0.2, 0.8) * rng.choice((-1, 1)) for _ in bounds]
@@ -439,6 +488,8 @@ def replay(ctx: Ctx, data: dict) -> bool:
     kind = data.get("kind")
     if kind == "direction":
         r = pred_direction(data["v"], data["g"])
+    elif kind == "walk":
+        r = pred_direction_walk(data["points"], data["vs"])
     elif kind == "eigen":
         r, _ = pred_eigen(data["surface"], data["x"], data["np_seed"])
     else:
